@@ -210,25 +210,37 @@ def run_lines(cmd, lines, timeout):
     return out, (None if p.returncode == 0 else f"exit {p.returncode}")
 
 
-def run_all(cmd, lines, per_op_timeout=10.0, chunk=20000):
-    """Run ops in chunks; if the process dies or hangs on some op, answer that op with
-    CRASH/HANG and continue after it."""
+def run_chunk(cmd, part, per_op_timeout):
+    """answers for one chunk; an op on which the process dies or hangs is answered CRASH/HANG and the
+    rest of the chunk is run after it"""
     answers = []
     i = 0
-    while i < len(lines):
-        part = lines[i:i + chunk]
-        out, problem = run_lines(cmd, part, timeout=max(60.0, per_op_timeout * 4 + len(part) * 0.02))
-        if problem is None and len(out) == len(part):
+    while i < len(part):
+        sub = part[i:]
+        out, problem = run_lines(cmd, sub, timeout=max(60.0, per_op_timeout * 4 + len(sub) * 0.02))
+        if problem is None and len(out) == len(sub):
             answers.extend(out)
-            i += len(part)
-            continue
-        # keep what was answered, mark the next op, go on
-        answers.extend(out[:len(part)])
+            break
+        answers.extend(out[:len(sub)])
         bad = i + len(out)
-        if bad < len(lines):
+        if bad < len(part):
             answers.append("HANG" if problem == "timeout" else "CRASH")
         i = bad + 1
-    return answers[:len(lines)]
+    return answers[:len(part)]
+
+
+def run_all(cmd, lines, per_op_timeout=10.0, chunk=20000, workers=3):
+    """Run ops in chunks (a few chunks concurrently)."""
+    parts = [lines[i:i + chunk] for i in range(0, len(lines), chunk)]
+    if len(parts) <= 1:
+        return run_chunk(cmd, lines, per_op_timeout) if lines else []
+    from concurrent.futures import ThreadPoolExecutor
+    with ThreadPoolExecutor(max_workers=workers) as ex:
+        res = list(ex.map(lambda p: run_chunk(cmd, p, per_op_timeout), parts))
+    out = []
+    for r in res:
+        out.extend(r)
+    return out
 
 
 # ----------------------------------------------------------------------------- verdict helpers
@@ -405,7 +417,7 @@ def main():
         "violations": len(new_viol) + (1 if (broken and not new_viol) else 0),
         "known_findings_hit": len(known_hits),
     }
-    write_json(os.path.join(ROOT, "evidence", prop + ".json"), ev)
+    write_json(os.path.join(os.environ.get("VERIF_EVIDENCE_DIR", os.path.join(ROOT, "evidence")), prop + ".json"), ev)
     log(f"{prop} {tier}: obligations {discharged}/{obligations}, evaluations {coverage['evaluations']}, "
         f"nontrivial {coverage['distinct_nontrivial']}, disagreements {coverage['model_disagreements']}, "
         f"oracle failures {coverage['oracle_failures']}, {ev['wall_s']} s, rc={rc}")
